@@ -316,6 +316,13 @@ struct Harness {
                  (unsigned long) det->totalMemoryLeaks(mem_leak_period_disabled),
                  (unsigned long) det->totalMemoryLeaks(mem_leak_period_enabled),
                  (unsigned long) det->totalMemoryLeaks(mem_leak_period_checking));
+        vh::emit("allocnum %u", det->getCurrentAllocationNumber());
+    }
+
+    static unsigned long long fnv1a(const char* t) {
+        unsigned long long h = 0xcbf29ce484222325ULL;
+        for (const unsigned char* q = (const unsigned char*) t; *q; q++) { h ^= *q; h *= 0x100000001b3ULL; }
+        return h;
     }
 
     static int period_of(const std::string& s) {
@@ -357,6 +364,8 @@ struct Harness {
         clear_text();
         const char* txt = det->report((MemLeakPeriod) p);
         std::string t(txt);
+        // the complete text (header, entries with memory dumps, truncation, footer) is compared through its length and hash
+        vh::emit("reporttext %lu %016llx", (unsigned long) t.size(), fnv1a(txt));
         if (t == "No memory leaks were detected.") { vh::emit("report none"); return; }
         std::vector<std::string> ls; std::string cur;
         for (size_t i = 0; i < t.size(); i++) { if (t[i] == '\n') { ls.push_back(cur); cur.clear(); } else cur.push_back(t[i]); }
@@ -391,6 +400,7 @@ struct Harness {
         vh::emit_op("setup");
         vh::emit("const nodesize %lu hashprime %d guard %d", (unsigned long) sizeof(MemoryLeakDetectorNode), (int) MEMORY_LEAK_HASH_TABLE_SIZE,
                  (int) MemoryLeakDetector::memory_corruption_buffer_size);
+        vh::emit("base %lu", (unsigned long) g_base - (unsigned long) LOGICAL_BASE);     // real address = base + printed address (for %p)
         for (size_t i = 0; i < allocs.size(); i++) {
             TestMemoryAllocator* a = allocs[i].a;
             if (allocs[i].wrap) vh::emit("allocator %lu wrap %d", (unsigned long) i, allocs[i].orig);
